@@ -201,6 +201,146 @@ class ItemStream(Stream):
         return (tuple(case["gs"]), impl_out) if ("1" in impl_out and "0" in impl_out) else None
 
 
+
+# --------------------------------------------------------------------------
+# "every other character matches only itself", beyond ASCII: spellings that a Unicode normalisation form, a compatibility
+# mapping or a case mapping would identify are different characters to the written language
+
+
+# words on which NFC / NFD / NFKC / NFKD / casefold / lower / upper act (precomposed and decomposed accents, singleton
+# decompositions, Hangul, combining marks in two orders, composition exclusions, ligatures, full-width forms, special casing,
+# letters outside the BMP, full-width glob metacharacters)
+UNI_WORDS = [
+    "é", "é", "résumé", "ÉCOLE", "Å", "Å", "Å", "Ω", "Ω", "K", "K", "ſ", "s",
+    "ß", "ss", "ẞ", "straße", "ﬁ", "fi", "ﬃx", "Ａ", "ｆｕｌｌ", "A", "가", "가",
+    "각", "한글", "ñ", "ö", "ö", "İ", "ı", "i̇", "ǆ", "ǅ", "µ", "μ",
+    "क़", "क़", "ḍ̇", "ḍ̇", "ḍ̇", "²", "①", "Ⅳ", "ℌ", "\U0001d400",
+    "σ", "ς", "Σ", "ẛ̣", "ΐ", "ᾳ", "ŉ", "＊", "a＊", "＼", "／", "℀",
+    "Ångström", "Ǖ", "ば", "ば", "ཱི", " ", " ", "ṩ", "⫝̸", "\U0001f1e9\U0001f1ea",
+    "لا", "ﻻ", "΅", "ẚ", "\U00010400", "\U00010428",
+]
+
+
+def uni_variants(w):
+    """the spellings some normalisation form or case mapping identifies with `w` (used by the generators only: the oracle
+    compares code points)"""
+    import unicodedata
+    out = [w]
+    for v in list(out):
+        out += [unicodedata.normalize(f, v) for f in ("NFC", "NFD", "NFKC", "NFKD")]
+    out += [w.casefold(), w.lower(), w.upper(), w.swapcase()]
+    out += [unicodedata.normalize(f, v) for v in out[5:9] for f in ("NFC", "NFD")]
+    seen, res = set(), []
+    for v in out:
+        if v and v not in seen:
+            seen.add(v)
+            res.append(v)
+    return res
+
+
+_UNI_POOL = []
+
+
+def uni_pool():
+    """every code point (outside controls, surrogates, private use) that some normalisation form or case mapping changes"""
+    import unicodedata
+    if not _UNI_POOL:
+        for cp in range(0xa0, 0x30000):
+            c = chr(cp)
+            cat = unicodedata.category(c)
+            if cat in ("Cc", "Cs", "Co", "Cn", "Zl", "Zp"):
+                continue
+            if unicodedata.decomposition(c) or c.lower() != c or c.upper() != c or c.casefold() != c:
+                _UNI_POOL.append(c)
+    return _UNI_POOL
+
+
+def rand_uni_word(rng):
+    r = rng.random()
+    if r < 0.45:
+        return rng.choice(UNI_WORDS)
+    c = rng.choice(uni_pool())
+    if r < 0.65:
+        return c
+    return rng.choice(["x", "a", "e", "K", "\u00e9"]) + c if r < 0.8 else c + rng.choice(["y", "\u0301", "\u0323", "s", c])
+
+
+class UnicodeStream(Stream):
+    name = "unicode"
+    rule = ("globs and paths beyond ASCII: a word W (75 fixed ones: precomposed / decomposed accents, singleton decompositions such as "
+            "U+212B / U+2126 / U+212A, Hangul syllables and jamo, combining marks in two orders, composition exclusions, ligatures, "
+            "full-width letters and full-width `*` `\\` `/`, special casing such as U+00DF / U+0130 / U+017F / final sigma, letters outside "
+            "the BMP; and random ones built around any code point below U+30000 that NFC, NFD, NFKC, NFKD, casefold, lower or upper "
+            "changes) in every spelling V(W) those mappings produce; the glob spells W in one of them inside 12 templates (literal, with a "
+            "directory, after `*/` `**/`, before `*` `/**`, between stars, escaped with a backslash, two globs in one item), the paths "
+            "spell it in every one of them (all combinations of precomposed / decomposed / compatibility / case spelling in glob and path): "
+            "AnnotationsItem.matches vs the model (code points) vs the property text read on code points; all W x spellings x templates "
+            "for the fixed words, then random ones; non-trivial = row with a match and a non-match")
+    # (glob template(s), path templates); {g} = the glob's spelling, {p} = the path's spelling
+    TEMPLATES = [
+        (["{g}"], ["{p}"]),
+        (["docs/{g}.txt"], ["docs/{p}.txt", "docs/{p}"]),
+        (["{g}/f.c"], ["{p}/f.c"]),
+        (["*/{g}"], ["a/{p}", "{p}", "{p}/{p}"]),
+        (["**/{g}"], ["{p}", "a/{p}", "a/b/{p}"]),
+        (["{g}*"], ["{p}", "{p}x", "{p}/x"]),
+        (["*{g}"], ["{p}", "x{p}"]),
+        (["{g}/**"], ["{p}/a", "{p}/a/b", "{p}"]),
+        (["src/*{g}*.c"], ["src/{p}.c", "src/a{p}b.c"]),
+        (["\\{g}"], ["{p}"]),
+        (["x\\{g}y"], ["x{p}y"]),
+        (["{g}", "lib/{g2}"], ["{p}", "lib/{p}"]),
+    ]
+
+    def _case(self, vs, gi, ti, g2i=0):
+        gts, pts = self.TEMPLATES[ti]
+        gs = [t.replace("{g2}", vs[g2i]).replace("{g}", vs[gi]) for t in gts]
+        ps = []
+        for v in vs:
+            for t in pts:
+                q = t.replace("{p}", v)
+                if q not in ps:
+                    ps.append(q)
+        return {"gs": gs, "ps": ps}
+
+    def cases(self, tier, rng):
+        for w in UNI_WORDS:
+            vs = uni_variants(w)
+            for gi in range(len(vs)):
+                for ti in range(len(self.TEMPLATES)):
+                    if tier == "thorough" or (gi + ti) % 3 == 0 or ti == 0:
+                        yield self._case(vs, gi, ti, (gi + 1) % len(vs))
+        for _ in range(12000 if tier == "thorough" else 500):
+            vs = uni_variants(rand_uni_word(rng))
+            yield self._case(vs, rng.randrange(len(vs)), rng.randrange(len(self.TEMPLATES)), rng.randrange(len(vs)))
+
+    def impl(self, case):
+        return impl_row(case["gs"], case["ps"])
+
+    def model_lines(self, case):
+        return ["itemrow\t%s\t%s" % (enc_list(case["gs"]), enc_list(case["ps"]))]
+
+    def oracle(self, case, impl_out):
+        if impl_out.startswith("EXC"):
+            return "unicode-glob-crash: %s" % impl_out
+        gs = case["gs"]
+        if any(trailing_backslash(g) for g in gs):
+            return None
+        for p, bit in zip(case["ps"], impl_out):
+            m = bit == "1"
+            if m and not any(denotes(g, p, True) for g in gs):
+                return ("unicode-overmatch: %s matches the path %s (code points %s vs %s): every character other than * and \\ matches only itself"
+                        % (ascii(gs), ascii(p), [enc(g) for g in gs], enc(p)))
+            if not m and any(denotes(g, p, False) for g in gs):
+                return "unicode-undermatch: %s misses the path %s" % (ascii(gs), ascii(p))
+        return None
+
+    def nontrivial(self, case, impl_out):
+        return (tuple(case["gs"]), impl_out) if ("1" in impl_out and "0" in impl_out) else None
+
+    def show(self, case):
+        return {"globs": [ascii(g) for g in case["gs"]], "paths": [ascii(p) for p in case["ps"]]}
+
 # --------------------------------------------------------------------------
 # the property's last clause on real projects: "... matches the file's whole path *relative to that REUSE.toml*"
 
@@ -387,11 +527,86 @@ class NestedStream(Stream):
         return {"files": self.tree(case), "invocation": "lint --json with an absolute --root from another directory" if case["abs"] else "lint --json in the root"}
 
 
+def file_safe(v):
+    return v not in (".", "..") and "/" not in v and "\0" not in v and len(v.encode("utf-8")) < 200 and v.isprintable()
+
+
+class UnicodeFilesStream(NestedStream):
+    """Sibling files and directories whose names differ only in normalisation form, compatibility mapping or case (they coexist
+    on tmpfs / ext4), of which a REUSE.toml names some: judged by NestedStream's oracle, which compares code points."""
+    name = "unifiles"
+    rule = ("generated projects in which a word W (as in `unicode`) is spelt in every variant V(W) as sibling file names `d/<v>.c`, "
+            "sibling directory names `<v>/f.c`, `<v>/inner/g.c`, and (p=0.4) with a REUSE.toml inside one of the sibling directories; 1-3 "
+            "tables in the root REUSE.toml with 1-2 globs from: one file spelt literally in one variant, `d/*<v>.c`, `**/<v>.c`, `<v>/**`, "
+            "`<v>/*.c`, `*/<v>*`, `**/*.c`; all tables `aggregate` with an own marker; the real `reuse lint --json` run in the root or with "
+            "an absolute --root; oracle as `nested` (per file and REUSE.toml the last table one of whose globs denotes the relative path, "
+            "code point by code point; a REUSE.toml in directory <v> says nothing about files below a sibling spelt differently); no "
+            "model; non-trivial = distinct projects in which some file of a sibling family is claimed and another is not")
+
+    def cases(self, tier, rng):
+        for _ in range(600 if tier == "thorough" else 45):
+            yield self.gen(rng)
+
+    def gen(self, rng):
+        while True:
+            vs = [v for v in uni_variants(rand_uni_word(rng)) if file_safe(v)]
+            if len(vs) >= 2:
+                break
+        vs = vs[:5]
+        files = ["top.c"]
+        kind = rng.choice(["files", "dirs", "both"])
+        if kind in ("files", "both"):
+            files += ["d/%s.c" % v for v in vs]
+        if kind in ("dirs", "both"):
+            for v in vs:
+                files += [v + "/f.c"] + ([v + "/inner/g.c"] if rng.random() < 0.5 else [])
+        fam = [f for f in files if f != "top.c"]
+
+        def table_globs(below, names):
+            gs = []
+            for _ in range(rng.choice([1, 1, 2])):
+                v = glob_escape(rng.choice(names))
+                r = rng.random()
+                if r < 0.35 and below:
+                    gs.append(glob_escape(rng.choice(below)))
+                elif r < 0.45:
+                    gs.append("d/*" + v + ".c")
+                elif r < 0.55:
+                    gs.append("**/" + v + ".c")
+                elif r < 0.7:
+                    gs.append(v + "/**")
+                elif r < 0.8:
+                    gs.append(v + "/*.c")
+                elif r < 0.9:
+                    gs.append("*/" + v + "*")
+                else:
+                    gs.append("**/*.c")
+            return gs
+        tomls = [{"dir": "", "tables": [table_globs(fam, vs) for _ in range(rng.choice([1, 2, 3]))]}]
+        if kind != "files" and rng.random() < 0.4:
+            d = rng.choice(vs)
+            tomls.append({"dir": d, "tables": [[rng.choice(["**", "*.c", "f.c", "inner/**"])]]})
+        return {"files": sorted(set(files)), "tomls": tomls, "abs": rng.random() < 0.34, "family": fam}
+
+    def nontrivial(self, case, impl_out):
+        if impl_out.startswith("EXC"):
+            return None
+        got = json.loads(impl_out)
+        fam = case.get("family", [])
+        claimed = [f for f in fam if got.get(f)]
+        return impl_out if claimed and len(claimed) < len(fam) else None
+
+    def show(self, case):
+        out = NestedStream.show(self, case)
+        return {"files": {ascii(k): v for k, v in out["files"].items()}, "invocation": out["invocation"]}
+
+
 PROPERTY = Property(
     pid="C05",
-    streams=[GlobStream(), ItemStream(), NestedStream()],
+    streams=[GlobStream(), ItemStream(), NestedStream(), UnicodeStream(), UnicodeFilesStream()],
     assumptions=[
         "CPython re is modelled for the emitted fragment (literal, [^/]*, .*, (?:.*/)?, full match) by Py.Re.bt, whose soundness/completeness w.r.t. the denotational language is proved; the tie to CPython's engine is the exhaustive differential",
         "a lone final backslash in a glob has no meaning in the written language (wfGlob); the code ignores it — excluded from the oracle, still compared model vs code",
+        "a 'character' of the written language is a Unicode code point (as in the model's List Char and in Python's str): canonically equivalent, compatibility-equivalent and case-variant spellings are different characters; file names are compared as the file system hands them out (streams unicode, unifiles run on tmpfs, which keeps every spelling apart)",
     ],
 )
